@@ -58,6 +58,7 @@ func bi(x int64) *big.Int { return big.NewInt(x) }
 func TestVerifC19ModInverseModPow(t *testing.T) {
 	r := vkit.Start(t, "C19", "modinverse-modpow", 120*time.Second, 600*time.Second)
 	defer r.Finish()
+	defer r.Watch(300*time.Second, nil)() // every evaluation here is micro- to milliseconds of arithmetic
 	r.Rule = "ModInverse: all n in [2,2^9), all a in [0,n); ModPow: all m in [1,64), x in [0,64), y in [-8,8]; oracle: brute-force int64 reference incl. 'no inverse' reporting; non-trivial = distinct (function,args)"
 	for n := int64(2); n < 512; n++ {
 		if _, mine := r.Next(); !mine {
@@ -128,6 +129,7 @@ func TestVerifC19ModInverseModPow(t *testing.T) {
 func TestVerifC19LegendreCrt(t *testing.T) {
 	r := vkit.Start(t, "C19", "legendre-crt", 120*time.Second, 600*time.Second)
 	defer r.Finish()
+	defer r.Watch(300*time.Second, nil)() // every evaluation here is micro- to milliseconds of arithmetic
 	r.Rule = "LegendreSymbol vs math/big.Jacobi: all odd p in [1,2^12), a in [-p,2p]; Crt: all coprime pa,pb in [2,64), all residues; oracle: Jacobi / brute-force congruence check; non-trivial = distinct (function,args)"
 	maxP := int64(vkit.Pick(1<<11, 1<<12))
 	r.Bounds["legendre_max_p"] = maxP
@@ -177,6 +179,7 @@ func TestVerifC19LegendreCrt(t *testing.T) {
 func TestVerifC19Sqrt(t *testing.T) {
 	r := vkit.Start(t, "C19", "primesqrt-modsqrt", 150*time.Second, 900*time.Second)
 	defer r.Finish()
+	defer r.Watch(300*time.Second, nil)() // every evaluation here is micro- to milliseconds of arithmetic
 	r.Rule = "PrimeSqrt: all odd primes p<2^12 (quick 2^11), all a in [0,p); ModSqrt: every ordered list of <=3 pairwise coprime factors from {4} U {odd primes<P} (P=24 quick, 48 thorough), all a in [0,n); oracle: existence by brute force, r^2=a mod n; non-trivial = distinct modulus/factor list"
 	maxP := int64(vkit.Pick(1<<11, 1<<12))
 	for p := int64(3); p < maxP; p += 2 {
@@ -275,6 +278,7 @@ func TestVerifC19Sqrt(t *testing.T) {
 func TestVerifC19FourSquares(t *testing.T) {
 	r := vkit.Start(t, "C19", "sumfoursquares", 200*time.Second, 1200*time.Second)
 	defer r.Finish()
+	defer r.Watch(300*time.Second, nil)() // every evaluation here is micro- to milliseconds of arithmetic
 	r.Rule = "SumFourSquares: all n < 2^16 (quick) / 2^20 (thorough) plus the families 2^k, 2^k+-1, 2^k-c, 4^j*m for k up to 512; oracle: a^2+b^2+c^2+d^2 == n; non-trivial = distinct n"
 	N := int64(vkit.Pick(1<<16, 1<<20))
 	r.Bounds["exhaustive_below"] = N
@@ -329,7 +333,8 @@ func TestVerifC19FourSquares(t *testing.T) {
 func TestVerifC19FastMod(t *testing.T) {
 	r := vkit.Start(t, "C19", "fastmod", 200*time.Second, 1200*time.Second)
 	defer r.Finish()
-	r.Rule = "FastMod: every modulus p in [2,2^B) (B=8 quick, 9 thorough) with every x in [-4p^2,4p^2], and every p in [2,2^12) with x in [-2p,4p] U [p^2-2p,p^2+2p] U [4p^2-2p,4p^2]; each once with ret distinct from x and once aliased; oracle: Euclidean x mod p; non-trivial = distinct p"
+	defer r.Watch(300*time.Second, nil)() // every evaluation here is micro- to milliseconds of arithmetic
+	r.Rule = "FastMod: every modulus p in [2,2^B) (B=8 quick, 9 thorough) with every x in [-4p^2,4p^2], and every p in [2,2^12) with x in [-2p,4p] U [p^2-2p,p^2+2p] U [4p^2-2p,4p^2]; each once with ret distinct from x and once aliased; one object re-Set along every sequence of 2 moduli in [2,2^6) and 3 moduli in [2,2^4) (and sequences mixing production-sized 2^b-c with general moduli), checked after every Set; oracle: Euclidean x mod p; non-trivial = distinct p"
 	B := uint(vkit.Pick(8, 9))
 	r.Bounds["full_window_bits"] = B
 	one := func(fm *FastMod, p, x int64) {
@@ -374,6 +379,62 @@ func TestVerifC19FastMod(t *testing.T) {
 		r.Nontrivial(fmt.Sprintf("fm|%d", p))
 	}
 	r.Sample(map[string]any{"fn": "FastMod", "p": 251, "x": "[-4p^2,4p^2]"})
+	// non-initial states: ONE FastMod object re-Set along every sequence of 2 moduli from [2,2^6) and of
+	// 3 moduli from [2,2^4) (fast-shaped 2^b-c and general moduli in every order); after every Set the
+	// object must behave like a fresh one
+	window := func(fm *FastMod, p int64) {
+		for x := -2 * p; x <= 4*p; x++ {
+			one(fm, p, x)
+		}
+		for x := p*p - p; x <= p*p+p; x++ {
+			one(fm, p, x)
+		}
+	}
+	for p1 := int64(2); p1 < 1<<6; p1++ {
+		if _, mine := r.Next(); !mine {
+			continue
+		}
+		for p2 := int64(2); p2 < 1<<6; p2++ {
+			var fm FastMod
+			fm.Set(bi(p1))
+			window(&fm, p1)
+			fm.Set(bi(p2))
+			window(&fm, p2)
+			r.Nontrivial(fmt.Sprintf("fmseq|%d,%d", p1, p2))
+			if p1 < 1<<4 && p2 < 1<<4 {
+				for p3 := int64(2); p3 < 1<<4; p3++ {
+					var f3 FastMod
+					f3.Set(bi(p1))
+					f3.Set(bi(p2))
+					f3.Set(bi(p3))
+					window(&f3, p3)
+					r.Nontrivial(fmt.Sprintf("fmseq|%d,%d,%d", p1, p2, p3))
+				}
+			}
+		}
+	}
+	// the same with the production-sized shapes: 2^b-c then a general modulus then 2^b'-c' on one object
+	{
+		mk := func(b uint, c int64) *big.Int { return new(big.Int).Sub(new(big.Int).Lsh(bi(1), b), bi(c)) }
+		general := new(big.Int).Add(new(big.Int).Lsh(bi(0x5a5a5a5a5a5a5a5), 200), bi(12347))
+		seqs := [][]*big.Int{{mk(787, 7341), general}, {general, mk(787, 7341)}, {mk(787, 7341), general, mk(127, 1)}, {mk(127, 1), mk(521, 1), general}, {mk(521, 1), mk(61, 1)}}
+		for si, seq := range seqs {
+			var fm FastMod
+			for _, p := range seq {
+				fm.Set(p)
+				for _, x := range []*big.Int{new(big.Int).Mul(p, p), new(big.Int).Sub(new(big.Int).Mul(p, p), bi(1)), new(big.Int).Lsh(p, 900), new(big.Int).Neg(new(big.Int).Lsh(p, 300)), new(big.Int).Add(p, bi(1)), new(big.Int).Lsh(bi(1), 1000)} {
+					r.EvalN(1)
+					want := new(mbig.Int).Mod(x.Go(), p.Go())
+					al := new(big.Int).Set(x)
+					fm.Mod(al, al)
+					if al.Go().Cmp(want) != 0 {
+						r.Violate("C19|FastMod|wrong-value-after-re-Set", fmt.Sprintf("sequence %d: modulus of %d bits, x bits=%d sign=%d", si, p.BitLen(), x.BitLen(), x.Sign()), si)
+					}
+				}
+			}
+			r.Nontrivial(fmt.Sprintf("fmseqbig|%d", si))
+		}
+	}
 	// huge arguments for the convenient-prime shaped moduli 2^b - c
 	for _, bc := range [][2]int64{{787, 7341}, {127, 1}, {521, 1}, {64, 59}, {61, 1}, {255, 19}, {1008, 3317}} {
 		p := new(big.Int).Sub(new(big.Int).Lsh(bi(1), uint(bc[0])), bi(bc[1]))
@@ -426,6 +487,7 @@ func (c *c19Reader) Read(p []byte) (int, error) {
 func TestVerifC19RandomPrime(t *testing.T) {
 	r := vkit.Start(t, "C19", "randomprimeinrange", 150*time.Second, 600*time.Second)
 	defer r.Finish()
+	defer r.Watch(300*time.Second, nil)() // every evaluation here is micro- to milliseconds of arithmetic
 	r.Rule = "RandomPrimeInRange(start in 2..14, length in 1..L (L=10 quick, 12 thorough)): every candidate byte string (scripted reader, then EOF); oracle: returned => prime and inside [2^start,2^start+2^length]; every odd prime in the interval is returned for some candidate; a candidate that encodes an odd prime in range is returned; non-trivial = distinct (start,length,candidate)"
 	L := uint(vkit.Pick(10, 12))
 	for start := uint(2); start <= 14; start++ {
